@@ -2,7 +2,10 @@
 
 package valid
 
-import "time"
+import (
+	"strings"
+	"time"
+)
 
 // C02: every violated rule reported exactly once, in order; nil iff none.
 // Rule functions r1/r2/r3 are uninterpreted (vURule): each invocation may or
@@ -253,5 +256,79 @@ func H_C02_sequence() {
 		r.top(o)
 		vCheckAgainstRef("C02 sequence call "+vNum(i), err, r)
 	}
+	vReach("end")
+}
+
+// real size rules with symbolic bounds on 64-bit fields (values above 2^53 included): the number of clauses
+// equals the number of violated rules, nil exactly when none
+type vW8 struct {
+	I int64
+	U uint64
+	S string
+}
+
+func vCountClauses(err error) int {
+	if err == nil {
+		return 0
+	}
+	return strings.Count(err.Error(), ErrEndFlag) + 1
+}
+
+func H_C02_real_rules() {
+	i, u := vndInt64("i"), vndUint64("u")
+	vAssume(vAnd(i != 0, u != 0))
+	lo, hi := vndInt("lo"), vndInt("hi")
+	mi, mu := vSignedMeas(i), vUnsignedMeas(u)
+	want := 0
+	rm := RM{}
+	switch vndChoice("rules", 3) {
+	case 0:
+		rm["I"] = "ge=" + vItoa(lo) + ",le=" + vItoa(hi)
+		want += vIteInt(mi.lt(lo), 1, 0) + vIteInt(mi.gt(hi), 1, 0)
+		rm["U"] = "gt=" + vItoa(lo)
+		want += vIteInt(vOr(mu.lt(lo), mu.eq(lo)), 1, 0)
+	case 1:
+		rm["I"] = "lt=" + vItoa(hi) + ",noeq=" + vItoa(lo)
+		want += vIteInt(vOr(mi.gt(hi), mi.eq(hi)), 1, 0) + vIteInt(mi.eq(lo), 1, 0)
+		rm["U"] = "to=" + vItoa(lo) + "~" + vItoa(hi) + ",eq=" + vItoa(hi)
+		want += vIteInt(vOr(mu.lt(lo), mu.gt(hi)), 1, 0) + vIteInt(vNot(mu.eq(hi)), 1, 0)
+	case 2:
+		rm["U"] = "le=" + vItoa(hi) + ",ge=" + vItoa(lo) + ",noeq=" + vItoa(hi)
+		want += vIteInt(mu.gt(hi), 1, 0) + vIteInt(mu.lt(lo), 1, 0) + vIteInt(mu.eq(hi), 1, 0)
+		rm["I"] = "oto=" + vItoa(lo) + "~" + vItoa(hi)
+		want += vIteInt(vOr(vOr(mi.lt(lo), mi.eq(lo)), vOr(mi.gt(hi), mi.eq(hi))), 1, 0)
+	}
+	err := Struct(&vW8{I: i, U: u}, rm)
+	vAssert((err == nil) == (want == 0), "C02 real size rules: nil exactly when no rule is violated")
+	vAssert(vCountClauses(err) == want, "C02 real size rules: one clause per violated rule")
+	vReach("end")
+}
+
+// maps whose keys render to the same text (interface keys 1 and "1"; int8 and string): every entry is validated
+func H_C02_colliding_keys() {
+	a, b := vInVal("a"), vInVal("b")
+	switch vndChoice("shape", 2) {
+	case 0:
+		vRunUnordered("C02 map[interface{}]T with keys 1 and \"1\"", map[interface{}]vIn{1: a, "1": b})
+	case 1:
+		vRunUnordered("C02 map[interface{}]*T with keys int8(2), uint(2) and \"2\"", map[interface{}]*vIn{int8(2): &a, uint(2): &b, "2": &a})
+	}
+}
+
+type vW9 struct {
+	M map[interface{}]vIn `valid:"exist"`
+}
+
+func H_C02_colliding_keys_field() {
+	vRunUnordered("C02 field map[interface{}]T with keys 1 and \"1\"", &vW9{M: map[interface{}]vIn{1: vInVal("a"), "1": vInVal("b")}})
+}
+
+func vRunUnordered(tag string, src interface{}) {
+	known := vGlobalRules()
+	err := Struct(src)
+	r := vNewRef()
+	r.global = known
+	r.top(src)
+	vCheckUnordered(tag, err, r)
 	vReach("end")
 }
